@@ -56,3 +56,31 @@ Proof.
   intros st' ups stop I. vm_compute in I. destruct I as [I|[I|[I|[]]]]; try discriminate. inv I.
   apply simple_b_ok. vm_compute. reflexivity.
 Qed.
+
+(* --- the hypothesis of the freshness theorem on a concrete history: writes at depth, a silent update, queries, a reverse that moves
+   things and one that moves nothing, a rebind with skip_notification ----------------------------------------------------------------------- *)
+From PG Require Import Model.SymCoreEventsSpec Proofs.SymCoreEventsQuery Proofs.SymCoreEventsFrame Proofs.SymCoreEventsFresh.
+Definition off : scope := mkScope [] [] [false] [].
+Definition hist : list op2 :=
+  [ Query (0%nat, []) 2;
+    Base batch;
+    Base (mkSop off (0%nat, [ka]) (LAppend (VLit (LitLeaf (LOpq 2 2)))));
+    Query (0%nat, [ka]) 0;
+    Base (mkSop ns (0%nat, [ka]) LReverse);
+    Base (mkSop ns (0%nat, [ka]) (LSort [0; 0; 0] false));
+    Base (mkSop ns (0%nat, [ka; KI 1]) (DUpdate [(kb, VLit (LitLeaf (LInt 7)))]));
+    RebindX ns (0%nat, []) [([kb], VLit (LitLeaf (LInt 9)))] (Some true) true;
+    Query (0%nat, []) 1 ].
+Ltac next_step :=
+  match goal with
+  | |- history_ok ?q ?xs (?o :: ?r) =>
+      change (covered (x_st xs) o /\ history_ok q (fst (fst (step2 q xs o))) r); split;
+      [ unfold covered, step_exact; vm_compute; try exact I; try reflexivity; intros H; try discriminate H; try reflexivity
+      | let x := fresh "xs" in let E := fresh "E" in
+        remember (fst (fst (step2 q xs o))) as x eqn:E; vm_compute in E; subst x ]
+  end.
+Lemma hist_ok : history_ok q0 (mkX st_tree no_caches) hist.
+Proof.
+  unfold hist, st_tree. vm_compute init_forest.
+  do 9 next_step. exact I.
+Qed.
